@@ -47,6 +47,35 @@ let openp (z : Model.z) : Model.page Model.res =
   | Some r -> r
   | None -> let r = Model.openp pager (z_of_int !usize) z in Hashtbl.replace memo n r; r
 
+(* alternatively the page store is the handle state machine of Model/DbState.v
+   (dirty flag, header, page cache, resolveDirty): [store_model] selects it;
+   the state lives across `reload`s like a long-lived handle's *)
+let store_model = ref false
+let dbst : Model.dbstate ref = ref Model.init_state
+let image : Model.byte list ref = ref []
+let env () = { Model.e_img = !image; Model.e_journal = None; Model.e_reserved = false }
+let openp_st (z : Model.z) : Model.page Model.res =
+  let (r, st') = Model.open_page (env ()) !dbst z in dbst := st'; r
+let the_store z = if !store_model then openp_st z else openp z
+
+let load_image path keep_state =
+  let s = read_file path in
+  Hashtbl.reset failing; Hashtbl.reset memo;
+  if !store_model then image := bytes_of_string s;
+  if not keep_state then dbst := Model.init_state;
+  let hb = bytes_of_string (String.sub s 0 (min 100 (String.length s))) in
+  (match Model.parse_header hb with
+   | Model.Err e ->
+     dbopen := false; pages := [||];
+     if not keep_state then print_endline ("open err " ^ string_of_bytes (Model.show_err e))
+   | Model.Ok h ->
+     let u = int_of_z (Model.h_pagesize h) in
+     usize := u;
+     let n = String.length s / u in     (* a trailing partial page is unreadable *)
+     pages := Array.init n (fun i -> bytes_of_string (String.sub s (i * u) u));
+     dbopen := true;
+     if not keep_state then Printf.printf "open ok %d\n" u)
+
 let starts_with p s = String.length s >= String.length p && String.sub s 0 (String.length p) = p
 
 let () =
@@ -54,24 +83,13 @@ let () =
     while true do
       let line = input_line stdin in
       if line = "" then ()
-      else if line.[0] = '#' then print_endline line
-      else if starts_with "db " line then begin
-        let path = String.sub line 3 (String.length line - 3) in
-        let s = read_file path in
-        Hashtbl.reset failing; Hashtbl.reset memo;
-        let hb = bytes_of_string (String.sub s 0 (min 100 (String.length s))) in
-        (match Model.parse_header hb with
-         | Model.Err e ->
-           dbopen := false; pages := [||];
-           print_endline ("open err " ^ string_of_bytes (Model.show_err e))
-         | Model.Ok h ->
-           let u = int_of_z (Model.h_pagesize h) in
-           usize := u;
-           let n = String.length s / u in     (* a trailing partial page is unreadable *)
-           pages := Array.init n (fun i -> bytes_of_string (String.sub s (i * u) u));
-           dbopen := true;
-           Printf.printf "open ok %d\n" u)
-      end
+      else if line.[0] = '#' then (print_endline line; flush stdout)
+      else if starts_with "db " line then load_image (String.sub line 3 (String.length line - 3)) false
+      else if starts_with "reload " line then load_image (String.sub line 7 (String.length line - 7)) true
+      else if line = "store model" then (store_model := true; dbst := Model.init_state)
+      else if line = "store memo" then store_model := false
+      else if line = "rlock" then (if !store_model then dbst := Model.rlock !dbst)
+      else if line = "runlock" then ()
       else if starts_with "fail " line then begin
         Hashtbl.reset failing; Hashtbl.reset memo;
         let a = String.sub line 5 (String.length line - 5) in
@@ -79,7 +97,8 @@ let () =
           List.iter (fun x -> Hashtbl.replace failing (int_of_string x) ()) (String.split_on_char ',' a)
       end
       else begin
-        let out = Model.run_line_with pager openp (nat_of_int (Array.length !pages)) (bytes_of_string line) in
+        if !store_model && line.[0] = 'h' then dbst := Model.rlock !dbst;
+        let out = Model.run_line_with pager the_store (nat_of_int (Array.length !pages)) (bytes_of_string line) in
         List.iter (fun l -> print_endline (string_of_bytes l)) out
       end
     done
